@@ -11,20 +11,36 @@
         never listed in the importer's __all__; a module with a star import exports nothing).  Import cycles, late
         imports, aliases, plain imports, star imports that do not re-export are all allowed.  The theorem also says
         that the machine terminates within its fuel and never trips an assert of processModule/getProcessedModule.
+     C06_cycles_hierarchy, C06_bases_order_free      -- the base OBJECTS that compute_mro finally keeps for every class
+        (resolved at visit time, or by the second pass in the final state) are the same for all schedules, WITH import
+        cycles (C06_bases_order_free is the acyclic special case; acyclicity is not needed).  Extra hypotheses: no star
+        import and no `name = dotted.name` statement (plain_imports), the names a module imports are pairwise distinct
+        and distinct from what it defines and from its sub-modules (bind_once), no module re-binds the name of a
+        top-level module (no_shadow_roots).  Proof: name expansion only gains information along a run
+        (Proofs/ProjectBases.v: resolve_mono), so a base resolved at visit time is the one the final state gives.
+     C06_alias_maps_syntactic                        -- under the same hypotheses the final alias map of every module is
+        `static_alias`, a function of that module's text (and of its position in the package tree, for relative imports).
+     C06_schedules_reachable, C06_registry_tool_orders -- the orders the real tool can realise (`tool_order`,
+        Spec/ProjectSchedules.v: depth-first preorders of the module forest, a package before its sub-modules, siblings
+        and roots in any order) are permutations of the modules, hence among the schedules all theorems quantify over;
+        at least one exists; C06_schedules_example pins the definition on a four-module project (the harness enumerates
+        the same four).  The theorems cover MORE orders than the tool realises; that the tool realises exactly the
+        `tool_order`s is observed (the worker reports the order in which System processed the modules), not proved.
      (C07_moved_once in Props/C07.v is the order-independence of the location of ONE re-exported object:
         C06_single_reexporter of DESIGN.md for a single designated re-export.)
    REFUTED on the faithful model (pydoctor really depends on the order; known findings in known_findings/C06.json):
      C06_dup_in_cycle_refuted, C06_stale_name_refuted, C06_moved_class_rescoped_refuted,
-     C06_reexport_in_cycle_refuted, C06_star_in_cycle_refuted.
-   NOT PROVED (sampled by the correspondence check and the two-schedule oracle only): order independence of the
-   resolved bases (C06_bases_order_free, C06_cycles_hierarchy of DESIGN.md: needs monotonicity of expandName along a
-   run), C06_alias_maps_syntactic, C06_schedules_reachable (every order the real tool realises is a permutation of the
-   module indices -- the theorems quantify over ALL permutations, a superset), several re-exports in one project.
+     C06_reexport_in_cycle_refuted, C06_star_in_cycle_refuted, C06_alias_assignment_refuted (the guard plain_imports of
+     the bases theorems is exact in this respect: `x = m.B` is expanded at visit time),
+     C06_rebound_import_in_cycle_refuted (the guard bind_once is needed: a name imported twice in a module on an import
+     cycle; all other hypotheses of C06_cycles_hierarchy hold for the witness).
+   NOT PROVED (sampled by the correspondence check and the two-schedule oracle only): the linearisation itself (a
+   function of the resolved bases, C05), several re-exports in one project, star imports outside cycles.
    Residual of the model: nested classes, imports inside class bodies, Class.find, duplicate module names,
-   unparsable modules; the C3 linearisation is a function of the resolved bases (C05). *)
+   unparsable modules. *)
 From Coq Require Import ZArith NArith List Bool Permutation.
-From PydoctorVerif Require Import Base.Sexp Model.Project Spec.ProjectStatic
-     Proofs.ProjectBase Proofs.ProjectRegistry Proofs.ProjectStaticCheck.
+From PydoctorVerif Require Import Base.Sexp Model.Project Spec.ProjectStatic Spec.ProjectSchedules
+     Proofs.ProjectBase Proofs.ProjectRegistry Proofs.ProjectStaticCheck Proofs.ProjectBases Proofs.ProjectSchedProofs.
 Import ListNotations.
 Local Open Scope N_scope.
 
@@ -48,6 +64,114 @@ Theorem C06_registry_order_free :
                   forall k, reg_entry s1 k = reg_entry s2 k.
 Proof. intros p s1 s2 Hwf Hinj Hnm H1 H2. exact (registry_order_free p Hwf Hinj Hnm s1 s2 H1 H2). Qed.
 
+(* With import cycles, one binding per name per scope, no re-export: the base objects finally kept for every class
+   (None for an unresolved base) are the same for all schedules -- the second pass of compute_mro. *)
+Theorem C06_cycles_hierarchy :
+  forall (p : project) (sigma1 sigma2 : list N),
+    parents_first p -> keys_distinct p -> no_move p -> plain_imports p -> bind_once p -> no_shadow_roots p ->
+    Permutation sigma1 (module_ids p) -> Permutation sigma2 (module_ids p) ->
+    exists s1 s2, run_state p sigma1 = Ok s1 /\ run_state p sigma2 = Ok s2 /\
+                  forall k, baseobjs_view s1 k = baseobjs_view s2 k.
+Proof. intros p s1 s2 Hwf Hinj Hnm Hpl Hbo Hns H1 H2. exact (bases_order_free p Hwf Hinj Hnm Hpl Hbo Hns s1 s2 H1 H2). Qed.
+
+(* The orders the real tool can realise -- `tool_order` (Spec/ProjectSchedules.v): a depth-first preorder of the module
+   forest, a package before its own sub-modules, siblings in any order, roots in any order -- are permutations of the
+   modules of the project: they are among the schedules every theorem of this file (and of Props/C07.v) quantifies
+   over, and there is at least one.  (The converse inclusion is false and not needed: the theorems also cover orders
+   the tool cannot realise.  That the tool realises exactly the `tool_order`s is the correspondence check's business:
+   harness/c06_lib.all_reachable_orders enumerates them.) *)
+Theorem C06_schedules_reachable :
+  forall p : project, parents_first p ->
+    (forall sigma, tool_order p sigma -> Permutation sigma (module_ids p)) /\ (exists sigma, tool_order p sigma).
+Proof. intros p Hwf. split; [exact (tool_order_permutation p Hwf)|exact (tool_order_exists p Hwf)]. Qed.
+
+(* ... so, for instance, the registry is the same under any two orders the tool can realise *)
+Theorem C06_registry_tool_orders :
+  forall (p : project) (sigma1 sigma2 : list N),
+    parents_first p -> keys_distinct p -> no_move p -> tool_order p sigma1 -> tool_order p sigma2 ->
+    exists s1 s2, run_state p sigma1 = Ok s1 /\ run_state p sigma2 = Ok s2 /\
+                  forall k, reg_entry s1 k = reg_entry s2 k.
+Proof.
+  intros p s1 s2 Hwf Hinj Hnm H1 H2.
+  exact (registry_order_free p Hwf Hinj Hnm s1 s2 (tool_order_permutation p Hwf s1 H1) (tool_order_permutation p Hwf s2 H2)).
+Qed.
+
+(* pkg/__init__.py, pkg/a.py, pkg/b.py, top.py: the tool orders are exactly the four preorders *)
+Definition sched_project : project :=
+  [ {| m_name := 1; m_parent := None; m_pkg := true; m_doc := 0; m_stmts := [] |};
+    {| m_name := 2; m_parent := Some 0; m_pkg := false; m_doc := 0; m_stmts := [] |};
+    {| m_name := 3; m_parent := Some 0; m_pkg := false; m_doc := 0; m_stmts := [] |};
+    {| m_name := 4; m_parent := None; m_pkg := false; m_doc := 0; m_stmts := [] |} ].
+
+Ltac inv_sched :=
+  repeat match goal with
+         | H : tool_forest _ (_ :: _) _ |- _ => inversion H; clear H; subst
+         | H : tool_forest _ [] _ |- _ => inversion H; clear H; subst
+         | H : tool_tree _ _ _ |- _ => inversion H; clear H; subst
+         | H : Permutation _ (children_of _ _) |- _ =>
+           vm_compute in H; apply Permutation_sym in H;
+           first [ (apply Permutation_nil in H) | (apply Permutation_length_1_inv in H) | (apply Permutation_length_2_inv in H; destruct H) ];
+           subst
+         end.
+
+Example C06_schedules_example :
+  forall sigma, tool_order sched_project sigma <-> In sigma [[0; 1; 2; 3]; [0; 2; 1; 3]; [3; 0; 1; 2]; [3; 0; 2; 1]].
+Proof.
+  intros sigma. split.
+  - intros (rs & Hp & Hf). vm_compute in Hp. apply Permutation_sym, Permutation_length_2_inv in Hp.
+    destruct Hp; subst rs; inv_sched; cbn [app In]; tauto.
+  - assert (L : forall m, m = 1 \/ m = 2 \/ m = 3 -> tool_tree sched_project m [m]).
+    { intros m Hm. apply (tt_node sched_project m [] []); [|constructor].
+      destruct Hm as [Hm|[Hm|Hm]]; subst m; vm_compute; constructor. }
+    assert (P12 : tool_tree sched_project 0 [0; 1; 2]).
+    { apply (tt_node sched_project 0 [1; 2] [1; 2]); [vm_compute; apply Permutation_refl|].
+      apply (tf_cons sched_project 1 [2] [1] [2]); [apply L; tauto|].
+      apply (tf_cons sched_project 2 [] [2] []); [apply L; tauto|constructor]. }
+    assert (P21 : tool_tree sched_project 0 [0; 2; 1]).
+    { apply (tt_node sched_project 0 [2; 1] [2; 1]); [vm_compute; apply perm_swap|].
+      apply (tf_cons sched_project 2 [1] [2] [1]); [apply L; tauto|].
+      apply (tf_cons sched_project 1 [] [1] []); [apply L; tauto|constructor]. }
+    intros [<-|[<-|[<-|[<-|[]]]]].
+    + exists [0; 3]. split; [vm_compute; apply Permutation_refl|].
+      apply (tf_cons sched_project 0 [3] [0; 1; 2] [3]); [exact P12|].
+      apply (tf_cons sched_project 3 [] [3] []); [apply L; tauto|constructor].
+    + exists [0; 3]. split; [vm_compute; apply Permutation_refl|].
+      apply (tf_cons sched_project 0 [3] [0; 2; 1] [3]); [exact P21|].
+      apply (tf_cons sched_project 3 [] [3] []); [apply L; tauto|constructor].
+    + exists [3; 0]. split; [vm_compute; apply perm_swap|].
+      apply (tf_cons sched_project 3 [0] [3] [0; 1; 2]); [apply L; tauto|].
+      apply (tf_cons sched_project 0 [] [0; 1; 2] []); [exact P12|constructor].
+    + exists [3; 0]. split; [vm_compute; apply perm_swap|].
+      apply (tf_cons sched_project 3 [0] [3] [0; 2; 1]); [apply L; tauto|].
+      apply (tf_cons sched_project 0 [] [0; 2; 1] []); [exact P21|constructor].
+Qed.
+
+(* the import graph read off the text: m -> the modules its from-imports name *)
+Definition imports_module (p : project) (m t : N) : Prop :=
+  exists mi lvl mn names k, modinfo_of p m = Some mi /\ In (SImportFrom lvl mn names) (m_stmts mi) /\
+                            static_modname p m lvl mn = Some k /\ (skey p (t, 0, 0) = k \/ exists o a, In (o, a) names /\ skey p (t, 0, 0) = k ++ [o]).
+Definition acyclic_imports (p : project) : Prop :=
+  exists rank : N -> N, forall m t, imports_module p m t -> rank t < rank m.
+
+(* the acyclic case of DESIGN.md (the hypothesis is not needed by the proof) *)
+Theorem C06_bases_order_free :
+  forall (p : project) (sigma1 sigma2 : list N),
+    parents_first p -> keys_distinct p -> no_move p -> plain_imports p -> bind_once p -> no_shadow_roots p ->
+    acyclic_imports p ->
+    Permutation sigma1 (module_ids p) -> Permutation sigma2 (module_ids p) ->
+    exists s1 s2, run_state p sigma1 = Ok s1 /\ run_state p sigma2 = Ok s2 /\
+                  forall k, baseobjs_view s1 k = baseobjs_view s2 k.
+Proof. intros p s1 s2 Hwf Hinj Hnm Hpl Hbo Hns _ H1 H2. exact (bases_order_free p Hwf Hinj Hnm Hpl Hbo Hns s1 s2 H1 H2). Qed.
+
+(* the final alias map of every module is the one its import statements write *)
+Theorem C06_alias_maps_syntactic :
+  forall (p : project) (sigma : list N),
+    parents_first p -> keys_distinct p -> no_move p -> plain_imports p -> bind_once p -> no_shadow_roots p ->
+    Permutation sigma (module_ids p) ->
+    exists s, run_state p sigma = Ok s /\
+              forall m mi, modinfo_of p m = Some mi -> forall a, alias_view s (skey p (m, 0, 0)) a = nget a (static_alias p m).
+Proof. intros p sigma Hwf Hinj Hnm Hpl Hbo Hns H. exact (alias_maps_syntactic p Hwf Hinj Hnm Hpl Hbo Hns sigma H). Qed.
+
 (* ---- witnesses ---- *)
 (* a.py:  class B ("first") / from b import C / class B ("second")      b.py:  from a import B / class C(B) *)
 Definition dup_cycle : project :=
@@ -68,6 +192,36 @@ Proof.
   split; [apply Permutation_refl|]. split; [apply perm_swap|]. split; vm_compute; reflexivity.
 Qed.
 
+(* The guard bind_once of C06_cycles_hierarchy is needed even when all qualified names are distinct: an import cycle
+   + a name IMPORTED twice in a module of the cycle.
+     a.py: from c import Z / class X          b.py: class X
+     c.py: from a import X / class K(X) / from b import X / class Z
+   If a is analysed first, c is analysed while a.X does not exist yet: K's base is unresolved at visit time and the
+   second pass finds X -> b.X; otherwise it is a.X.  Every other hypothesis of C06_cycles_hierarchy holds.
+   (Same family as C06-dup-in-cycle: a name bound twice in a module on an import cycle; confirmed on the real tool.) *)
+Definition rebound_cycle : project :=
+  [ {| m_name := 1; m_parent := None; m_pkg := false; m_doc := 0;
+       m_stmts := [SImportFrom 0 [3] [(12, 12)]; SClass 10 1 [] []] |};
+    {| m_name := 2; m_parent := None; m_pkg := false; m_doc := 0; m_stmts := [SClass 10 2 [] []] |};
+    {| m_name := 3; m_parent := None; m_pkg := false; m_doc := 0;
+       m_stmts := [SImportFrom 0 [1] [(10, 10)]; SClass 11 0 [[10]] []; SImportFrom 0 [2] [(10, 10)]; SClass 12 0 [] []] |} ].
+
+Theorem C06_rebound_import_in_cycle_refuted :
+  let p := rebound_cycle in
+  parents_first p /\ keys_distinct p /\ no_move p /\ plain_imports p /\ no_shadow_roots p /\
+  (forall sigma, In sigma [[0; 1; 2]; [0; 2; 1]; [1; 0; 2]] ->
+     run_view p sigma (fun s => baseobjs_view s [3; 11]) = Some (Some [Some [2; 10]])) /\
+  (forall sigma, In sigma [[1; 2; 0]; [2; 0; 1]; [2; 1; 0]] ->
+     run_view p sigma (fun s => baseobjs_view s [3; 11]) = Some (Some [Some [1; 10]])).
+Proof.
+  cbv zeta. split; [apply parents_firstb_sound; vm_compute; reflexivity|].
+  split; [apply keys_distinctb_sound; vm_compute; reflexivity|].
+  split; [apply no_moveb_sound; vm_compute; reflexivity|].
+  split; [apply plain_importsb_sound; vm_compute; reflexivity|].
+  split; [apply no_shadow_rootsb_sound; vm_compute; reflexivity|].
+  split; intros sigma H; repeat (destruct H as [<-|H]; [vm_compute; reflexivity|]); destruct H.
+Qed.
+
 (* the hypotheses of the positive theorems are satisfiable, with an import cycle and bases that need the second pass:
    a.py: from b import B / class A(B)     b.py: from a import A / class B / class B2(A) *)
 Definition two_cycle : project :=
@@ -78,6 +232,7 @@ Definition two_cycle : project :=
 
 Example C06_hypotheses_satisfiable :
   parents_first two_cycle /\ keys_distinct two_cycle /\ no_move two_cycle /\
+  plain_imports two_cycle /\ bind_once two_cycle /\ no_shadow_roots two_cycle /\
   Permutation [1; 0] (module_ids two_cycle) /\
   run_view two_cycle [1; 0] (fun s => (reg_entry s [1; 10; 20], bases_view s [2; 12], bases_view s [1; 10])) =
   Some (Some (T_FUNCTION, K_METHOD, 3), Some [([1; 10], Some [1; 10])], Some [([2; 11], Some [2; 11])]).
@@ -85,6 +240,9 @@ Proof.
   split; [apply parents_firstb_sound; vm_compute; reflexivity|].
   split; [apply keys_distinctb_sound; vm_compute; reflexivity|].
   split; [apply no_moveb_sound; vm_compute; reflexivity|].
+  split; [apply plain_importsb_sound; vm_compute; reflexivity|].
+  split; [apply bind_onceb_sound; vm_compute; reflexivity|].
+  split; [apply no_shadow_rootsb_sound; vm_compute; reflexivity|].
   split; [apply perm_swap|vm_compute; reflexivity].
 Qed.
 
@@ -164,5 +322,30 @@ Theorem C06_star_in_cycle_refuted :
     run_view p s2 (fun s => bases_view s k) = Some (Some [([4], None)]).
 Proof.
   exists star_cycle, [0; 1], [1; 0], [5; 3].
+  split; [apply Permutation_refl|]. split; [apply perm_swap|]. split; vm_compute; reflexivity.
+Qed.
+
+(* a.py: import m ; x = m.B ; class K(x)      m.py: from c import B      c.py: class B
+   names: m 1, x 2, B 3, K 4, a 5, c 6.  No cycle, no re-export, every name bound once: the assignment alias is expanded
+   when it is visited, and a plain import does not make m known before. *)
+Definition alias_assignment : project :=
+  [ {| m_name := 5; m_parent := None; m_pkg := false; m_doc := 0;
+       m_stmts := [SImport [1] 0; SAlias 2 [1; 3]; SClass 4 0 [[2]] []] |};
+    {| m_name := 1; m_parent := None; m_pkg := false; m_doc := 0; m_stmts := [SImportFrom 0 [6] [(3, 3)]] |};
+    {| m_name := 6; m_parent := None; m_pkg := false; m_doc := 0; m_stmts := [SClass 3 0 [] []] |} ].
+
+Theorem C06_alias_assignment_refuted :
+  exists (p : project) (s1 s2 : list N) (k : path),
+    parents_first p /\ keys_distinct p /\ no_move p /\ bind_once p /\ no_shadow_roots p /\
+    Permutation s1 (module_ids p) /\ Permutation s2 (module_ids p) /\
+    run_view p s1 (fun s => baseobjs_view s k) = Some (Some [None]) /\
+    run_view p s2 (fun s => baseobjs_view s k) = Some (Some [Some [6; 3]]).
+Proof.
+  exists alias_assignment, [0; 1; 2], [1; 0; 2], [5; 4].
+  split; [apply parents_firstb_sound; vm_compute; reflexivity|].
+  split; [apply keys_distinctb_sound; vm_compute; reflexivity|].
+  split; [apply no_moveb_sound; vm_compute; reflexivity|].
+  split; [apply bind_onceb_sound; vm_compute; reflexivity|].
+  split; [apply no_shadow_rootsb_sound; vm_compute; reflexivity|].
   split; [apply Permutation_refl|]. split; [apply perm_swap|]. split; vm_compute; reflexivity.
 Qed.
